@@ -290,7 +290,7 @@ func instrumentPackage(p *packages.Package, overlay map[string]string) {
 	fmt.Fprintf(&b, "}\n")
 	// VerifResetAll: every package-level variable gets its initial value again - variables without an
 	// initializer first, then the initializers in the package's initialization order
-	fmt.Fprintf(&b, "\nfunc init() { _vrt.RegisterFullReset(VerifResetAll) }\n\n// VerifResetAll puts the package-level state of this package back to what it is when the process starts.\nfunc VerifResetAll() {\n")
+	fmt.Fprintf(&b, "\nfunc init() { _vrt.RegisterFullResetOf(%q, VerifResetAll) }\n\n// VerifResetAll puts the package-level state of this package back to what it is when the process starts.\nfunc VerifResetAll() {\n", p.Name)
 	called := map[string]bool{}
 	inOrder := map[string]bool{}
 	for _, in := range p.TypesInfo.InitOrder {
